@@ -101,6 +101,7 @@ pub mod k {
     pub const LINK_MTU_AT: i128 = 66; // time at which link mtu changes
     pub const LINK_MTU2: i128 = 67;
     pub const DROP_MASK_DIR: i128 = 68; // 0 both, 1 only client->server, 2 only server->client
+    pub const FAIR_RUN: i128 = 69; // >0: at most this many consecutive random drops per direction
 }
 
 pub struct Rng(u64);
@@ -297,6 +298,7 @@ pub struct World {
     conn_counter: usize,
     steps: u64,
     accepted_pairs: Vec<usize>,
+    drop_run: [i128; 2],
 }
 
 fn ecn_code(e: Option<EcnCodepoint>) -> i128 {
@@ -441,6 +443,7 @@ impl World {
             conn_counter: 0,
             steps: 0,
             accepted_pairs: Vec::new(),
+            drop_run: [0, 0],
             p,
         };
         let (cert, key) = load_cert();
@@ -584,10 +587,19 @@ impl World {
         if self.rng.chance(replay + spoof) && self.stored.len() < 64 {
             self.stored.push((src, dst, data.clone(), origin));
         }
-        if masked || self.rng.chance(loss) {
+        let fair = self.p.get(k::FAIR_RUN, 0);
+        let mut lose = self.rng.chance(loss);
+        if lose && fair > 0 && self.drop_run[src_ep.min(1)] >= fair {
+            lose = false; // fair loss: never more than `fair` random drops in a row per direction
+        }
+        if masked || lose {
+            if lose {
+                self.drop_run[src_ep.min(1)] += 1;
+            }
             self.trace.push(vec![9, t, idx as i128, 1, sid, did, size]);
             return;
         }
+        self.drop_run[src_ep.min(1)] = 0;
         let mut copies = 1;
         if dupmask || self.rng.chance(dup) {
             copies = 2 + self.rng.below(2);
@@ -912,8 +924,9 @@ impl World {
                 }
             }
         }
-        let can_start = app.connected || (app.is_client && zero_rtt > 0 && conn.has_0rtt());
-        if !app.connected && can_start {
+        let can_start = app.connected || (app.is_client && zero_rtt > 0 && conn.has_0rtt()) || !app.is_client;
+        let may_open = app.connected || app.is_client;
+        if !app.connected && can_start && app.is_client {
             app.early_started = true;
         }
         if app.warmup {
@@ -933,7 +946,7 @@ impl World {
             app.p_dgram_unblocked = dgram_unblocked;
         } else {
             // open streams
-            if !app.started || avail {
+            if may_open && (!app.started || avail) {
                 app.started = true;
                 while app.want_bidi > 0 {
                     match conn.streams().open(Dir::Bi) {
@@ -1376,6 +1389,11 @@ impl World {
                     }
                     scfg.transport_config(Arc::new(tcfg));
                     scfg.token_key(quinn_proto_token_key(self.p.get(k::SEED, 1) as u64));
+                    scfg.migration(self.p.get(k::MIGRATION_ALLOWED, 1) != 0);
+                    scfg.time_source(Arc::new(SimTime {
+                        base: std::time::UNIX_EPOCH + Duration::from_secs(1_700_000_000),
+                        now_us: self.now_shared.clone(),
+                    }));
                     self.eps[1].ep.set_server_config(Some(Arc::new(scfg)));
                 }
                 self.trace.push(vec![13, self.now as i128, 6, zero_rtt]);
